@@ -360,6 +360,195 @@ def dirExists (p : String) : Bool :=
   let cs := (p.splitOn "/").filter (fun c => c ≠ "" ∧ c ≠ ".")
   cs == [] || cs == ["d1"] || cs == ["d2"] || cs == ["d1", "s"]
 
+/-! ## `Process` methods (`yash-env/src/system/virtual/process.rs`) -/
+
+/-- `resource_limits.get(&Resource::NOFILE).map(|l| l.soft)` (`none` = `INFINITY`), from the text `ulimit -S -n`
+    prints (the representation of `Proc.nofile`) -/
+def nofileLimit (p : Proc) : Option Nat := if p.nofile = "unlimited" then none else p.nofile.toNat?
+
+/-- the guard of `Process::set_fd` / `Process::has_unused_fd`: `limit == INFINITY || fd < limit` -/
+def fdAllowed (p : Proc) (fd : Nat) : Bool :=
+  match nofileLimit p with
+  | none => true
+  | some l => fd < l
+
+/-- `min_unused_fd(min, fds.keys())`: the lowest descriptor `>= min` that is not open -/
+def minUnusedFd (fds : List (Nat × FdEntry)) (min : Nat) : Nat :=
+  (((List.range (fds.length + 1)).map (· + min)).find? (fun n => (fdGet fds n).isNone)).getD (min + fds.length)
+
+/-- `Process::set_fd(fd, body)`: `Ok` (entry written) or `Err` (nothing changes) -/
+def Proc.setFd (p : Proc) (fd : Nat) (e : FdEntry) : Option Proc :=
+  if fdAllowed p fd then some { p with fds := fdPut p.fds fd e } else none
+
+/-- `Process::open_fd_ge(min_fd, body)` -/
+def Proc.openFdGe (p : Proc) (min : Nat) (e : FdEntry) : Option (Nat × Proc) :=
+  let fd := minUnusedFd p.fds min
+  (p.setFd fd e).map fun q => (fd, q)
+
+/-! ## System calls (`impl … for VirtualSystem`), as functions of the calling process's own `Process` -/
+
+inductive Call where
+  /-- `Umask::umask` -/
+  | umask (m : String)
+  /-- `Chdir::chdir` -/
+  | chdir (path : String)
+  /-- `Open::open` of an existing regular file, write-only, no flags (→ `create_fd` → `open_fd`) -/
+  | open (file : String)
+  /-- `Dup::dup(from, to_min, flags)` -/
+  | dup (src min : Nat) (cloexec : Bool)
+  /-- `Dup::dup2(from, to)` -/
+  | dup2 (src dst : Nat)
+  /-- `Close::close` -/
+  | close (fd : Nat)
+  /-- `Fcntl::fcntl_setfd` -/
+  | setfd (fd : Nat) (cloexec : Bool)
+  /-- `Sigaction::sigaction` -/
+  | sigaction (sig : Nat) (d : Disp)
+  /-- `Sigmask::sigmask(Some((Add | Remove, {sig})), None)` -/
+  | sigmask (block : Bool) (sig : Nat)
+  /-- `SetRlimit::setrlimit(Resource::NOFILE, LimitPair { soft, hard: INFINITY })` -/
+  | setrlimit (soft : String)
+  deriving DecidableEq, Repr
+
+/-- what a call answers: `Ok(())`, `Ok(fd)`, or `Err(errno)` -/
+inductive CallRes where
+  | ok
+  | fd (n : Nat)
+  | err (errno : String)
+  deriving DecidableEq, Repr
+
+/-- the text of an answer in the observation of the `X:` cases -/
+def CallRes.show : CallRes → String
+  | .ok => "ok"
+  | .fd n => s!"fd{n}"
+  | .err e => e
+
+def CallRes.isErr : CallRes → Bool
+  | .err _ => true
+  | _ => false
+
+/-- The effect of one call on the `Process` of the caller (`self.current_process_mut()`), and its typed answer.
+    A failing call changes nothing (`failing_call_changes_nothing`). -/
+def Call.runT : Call → Proc → CallRes × Proc
+  | .umask m, p => (.ok, { p with umask := m })
+  | .chdir path, p =>
+    -- `resolve_existing_file` (relative paths joined to `cwd`), must be a directory; the stored path is
+    -- `cwd.join(path)` with `.` dropped and `..` resolved
+    if dirExists (joinPath p.cwd path) then (.ok, { p with cwd := normalizePath (joinPath p.cwd path) })
+    else (.err "ENOENT", p)
+  | .open file, p =>
+    -- `has_unused_fd()` is checked before the file is resolved; then `create_fd` → `open_fd`
+    if fdAllowed p (minUnusedFd p.fds 0) then
+      match p.openFdGe 0 { label := file } with
+      | some (fd, q) => (.fd fd, q)
+      | none => (.err "EMFILE", p)
+    else (.err "EMFILE", p)
+  | .dup src min cloexec, p =>
+    match fdGet p.fds src with
+    | none => (.err "EBADF", p)
+    | some e =>
+      match p.openFdGe min { e with cloexec := cloexec } with
+      | some (fd, q) => (.fd fd, q)
+      | none => (.err "EMFILE", p)
+  | .dup2 src dst, p =>
+    match fdGet p.fds src with
+    | none => (.err "EBADF", p)
+    | some e =>
+      if src = dst then (.fd dst, p)
+      else match p.setFd dst { e with cloexec := false } with
+        | some q => (.fd dst, q)
+        | none => (.err "EBADF", p)
+  | .close fd, p => (.ok, { p with fds := fdDel p.fds fd })
+  | .setfd fd cloexec, p =>
+    match fdGet p.fds fd with
+    | none => (.err "EBADF", p)
+    | some e => (.ok, { p with fds := fdPut p.fds fd { e with cloexec := cloexec } })
+  | .sigaction sig d, p => (.ok, { p with sys := { p.sys with disp := Trap.upd p.sys.disp sig d } })
+  | .sigmask block sig, p => (.ok, { p with sys := { p.sys with blocked := Trap.upd p.sys.blocked sig block } })
+  | .setrlimit soft, p => (.ok, { p with nofile := soft })
+
+/-- the same with the answer as the `X:` cases print it (`ok`, `fd<n>`, or the `Errno`) -/
+def Call.run (c : Call) (p : Proc) : String × Proc := ((c.runT p).1.show, (c.runT p).2)
+
+/-- the calls of a process one after the other, on its own `Process` -/
+def runCalls (p : Proc) (cs : List Call) : Proc := cs.foldl (fun q c => (c.run q).2) p
+
+/-! ## The redirection engine (`yash-semantics/src/redir.rs`), as the `exec` built-in uses it
+
+`exec N>|file`, `exec N<file`, `exec N>&M`, `exec N>&-` are what the fd mutators of the sweep render to.  Each is one
+`RedirGuard::perform_redir` (→ `perform` → `open_and_overwrite`) followed by `RedirGuard::preserve_redirs` (the `exec`
+built-in makes the redirection permanent).  Every step is a system call of the process itself (`Call.runT`). -/
+
+/-- `yash_env::io::MIN_INTERNAL_FD` (checked against the source by the generated `minInternalFd`) -/
+def minInternalFd : Nat := 10
+
+/-- the body of a redirection after `open_normal` has classified it -/
+inductive RedirBody where
+  /-- `N>|file` / `N<file`: `open_file` → `FdSpec::Owned(fd)`; `label` names the open file description -/
+  | file (label : String)
+  /-- `N>&M`: `copy_fd(…, OfdAccess::WriteOnly)` → `FdSpec::Borrowed(M)` -/
+  | copy (src : Nat)
+  /-- `N>&-`: `copy_fd` → `FdSpec::Closed` -/
+  | close
+  deriving DecidableEq, Repr
+
+/-- `is_cloexec(env, fd)` -/
+def isCloexec (p : Proc) (fd : Nat) : Bool :=
+  match fdGet p.fds fd with
+  | some e => e.cloexec
+  | none => false
+
+/-- `open_and_overwrite(env, redir, target_fd)`: success?, and the process afterwards.
+    `file`: `open` → `k`; when `k ≠ target`: `dup2(k, target)`, then `close(k)` whatever `dup2` answered.
+    `copy`: `copy_fd` checks that the source is open for writing (`is_fd_valid`; the read-only file of the sweep is the
+    one labelled `oin`) and has no CLOEXEC flag; when `src ≠ target`: `dup2(src, target)`; the source stays open.
+    `close`: `close(target)`. -/
+def openAndOverwrite (p : Proc) (target : Nat) : RedirBody → Bool × Proc
+  | .file label =>
+    let r := (Call.open label).runT p
+    match r.1 with
+    | .fd k =>
+      if k ≠ target then
+        let d := (Call.dup2 k target).runT r.2
+        (!d.1.isErr, ((Call.close k).runT d.2).2)
+      else (true, r.2)
+    | _ => (false, r.2)
+  | .copy src =>
+    match fdGet p.fds src with
+    | none => (false, p)
+    | some e =>
+      if e.label = "oin" || e.cloexec then (false, p)
+      else if src ≠ target then
+        let d := (Call.dup2 src target).runT p
+        (!d.1.isErr, d.2)
+      else (true, p)
+  | .close => (true, ((Call.close target).runT p).2)
+
+/-- `perform(env, redir)`: refuse a CLOEXEC target (`ErrorCause::ReservedFd`); save the target with
+    `dup(target, MIN_INTERNAL_FD, CLOEXEC)` (`EBADF` = nothing to save, any other error = `FdNotOverwritten`);
+    `open_and_overwrite`; on failure close the saved copy.  Result: success?, the saved descriptor, the process. -/
+def performRedir (p : Proc) (target : Nat) (body : RedirBody) : Bool × Option Nat × Proc :=
+  if isCloexec p target then (false, none, p) else
+  let s := (Call.dup target minInternalFd true).runT p
+  match s.1 with
+  | .err e =>
+    if e = "EBADF" then
+      let r := openAndOverwrite s.2 target body
+      (r.1, none, r.2)
+    else (false, none, s.2)
+  | .fd save =>
+    let r := openAndOverwrite s.2 target body
+    if r.1 then (true, some save, r.2)
+    else (false, none, ((Call.close save).runT r.2).2)
+  | .ok => (false, none, s.2)
+
+/-- one redirection of the `exec` built-in: `perform_redir`, then `preserve_redirs` closes the saved copy -/
+def execRedir (p : Proc) (target : Nat) (body : RedirBody) : Bool × Proc :=
+  let r := performRedir p target body
+  match r.2.1 with
+  | some save => (r.1, ((Call.close save).runT r.2.2).2)
+  | none => (r.1, r.2.2)
+
 /-- option names the `set` built-in refuses while `portable` is on (no POSIX spelling) -/
 def nonPortableOpts : List String := ["hashondefinition", "login", "posixlycorrect"]
 
@@ -369,7 +558,7 @@ def opStatus (env : Env) : Op → Nat
   | .unalias a => if (env.aliases.find a).isNone then 1 else 0
   | .cd d =>
     let old := ((env.variables.vars.find "PWD").map (·.value)).getD ""
-    if dirExists (joinPath env.system.cwd (shorten d old)) then 0 else 2
+    if ((Call.chdir (shorten d old)).runT env.system).1.isErr then 2 else 0
   | _ => 0
 
 /-- the shell exits by itself with `status` (errexit): the EXIT trap runs first -/
@@ -378,6 +567,17 @@ def exitShell (sh : Shell) (status : Nat) : Shell :=
     | some n => [s!"T{n}"]
     | none => []
   { sh with events := sh.events ++ evs, halted := some status }
+
+/-- An error of a special built-in (`exec` with a failing redirection, `set` with an option it refuses): the
+    non-interactive-loop shell of the sweep exits with status 2 — through `exitShell`, so its EXIT trap runs. -/
+def builtinError (sh : Shell) : Shell := exitShell sh 2
+
+/-- `exec` with one redirection: the process state is whatever the redirection engine left (`execRedir`); a failure
+    is an error of the special built-in. -/
+def redirOp (sh : Shell) (n : Nat) (b : RedirBody) : Shell :=
+  let r := execRedir sh.env.system n b
+  let sh1 : Shell := { sh with env := { sh.env with system := r.2 } }
+  if r.1 then sh1 else builtinError sh1
 
 /-- `Env::get_tty`: `/dev/tty` is opened once, moved to the lowest free descriptor >= 10 with CLOEXEC and
     remembered in `env.tty` -/
@@ -420,39 +620,36 @@ def applyOpCore (sh : Shell) (op : Op) : Shell :=
   | .unalias a => { sh with env := { env with aliases := env.aliases.del a } }
   | .optOn o =>
     -- a non-portable option name while `portable` is on is an error of the special built-in `set`: the shell
-    -- exits with status 2 (the generator of the sweep never produces it)
-    if env.options.contains "portable" && nonPortableOpts.contains o then { sh with halted := some 2 }
+    -- exits with status 2 after its EXIT trap
+    if env.options.contains "portable" && nonPortableOpts.contains o then builtinError sh
     else { sh with env := monitorChanged o { env with options := insertSorted o env.options } }
   | .optOff o =>
-    if env.options.contains "portable" && nonPortableOpts.contains o then { sh with halted := some 2 }
+    if env.options.contains "portable" && nonPortableOpts.contains o then builtinError sh
     else { sh with env := monitorChanged o { env with options := env.options.filter (· ≠ o) } }
   | .bg => { sh with env := { env with jobs := env.jobs.add } }
-  | .nofile v => { sh with env := { env with system := { env.system with nofile := v } } }
+  | .nofile v => { sh with env := { env with system := ((Call.setrlimit v).runT env.system).2 } }
   | .exit _ => sh
   | .shift => { sh with env := { env with variables := { env.variables with params := env.variables.params.drop 1 } } }
   | .args xs => { sh with env := { env with variables := { env.variables with params := xs } } }
   | .cd d =>
     let old := ((env.variables.vars.find "PWD").map (·.value)).getD ""
-    let full := joinPath env.system.cwd (shorten d old)
-    if dirExists full then
+    -- the built-in hands the shortened path to `chdir`
+    let r := (Call.chdir (shorten d old)).runT env.system
+    if !r.1.isErr then
       let e1 := setVar env "OLDPWD" fun _ => { value := old, exported := true }
       let e2 := setVar e1 "PWD" fun o => match o with
         | some x => { x with value := d }
         | none => { value := d, exported := true }
-      { sh with env := { e2 with system := { e2.system with cwd := normalizePath full } } }
+      { sh with env := { e2 with system := r.2 } }
     else sh
-  | .umask m => { sh with env := { env with system := { env.system with umask := m } } }
+  | .umask m => { sh with env := { env with system := ((Call.umask m).runT env.system).2 } }
   | .trap c a => { sh with env := trapSet env c a }
-  | .fdw n file => { sh with env := { env with system := { env.system with fds := fdPut env.system.fds n { label := file } } } }
-  | .fdr n => { sh with env := { env with system := { env.system with fds := fdPut env.system.fds n { label := "oin" } } } }
-  | .fdd n m => match fdGet env.system.fds m with
-    | some e =>
-      -- `N>&M` of a read-only M is a redirection error of the special built-in `exec`: the shell exits
-      -- with status 2 (the generator of the sweep never produces it)
-      if e.label = "oin" then { sh with halted := some 2 }
-      else { sh with env := { env with system := { env.system with fds := fdPut env.system.fds n { label := e.label } } } }
-    | none => { sh with halted := some 2 }
-  | .fdc n => { sh with env := { env with system := { env.system with fds := fdDel env.system.fds n } } }
+  -- `exec N>|file`, `exec N</o/in`, `exec N>&M`, `exec N>&-`: the redirection engine; a target at or above the soft
+  -- RLIMIT_NOFILE, a source that is closed / read-only / CLOEXEC, a CLOEXEC target are redirection errors
+  | .fdw n file => redirOp sh n (.file file)
+  | .fdr n => redirOp sh n (.file "oin")
+  | .fdd n m => redirOp sh n (.copy m)
+  | .fdc n => redirOp sh n .close
   | .local n v =>
     { sh with env := { env with functions := env.functions.put "lf" (n ++ "." ++ v) },
               events := sh.events ++ ["L:" ++ v] }
